@@ -21,6 +21,8 @@ ALPHABET = [
     ("fail_value", "fail", ("value",), {}),
     ("fail_key", "fail", (), {"kind": "key"}),
     ("fail_pyro_timeout", "fail", ("pyro-timeout",), {}),
+    ("fail_bytes", "fail", ("bytes",), {}),
+    ("fail_decimal", "fail", ("decimal",), {}),
     ("unexposed", "unexposed", (), {}),
     ("private", "_private", (), {}),
     ("missing", "no_such_method", (1,), {}),
@@ -36,7 +38,8 @@ def run_config(unit):
     from vf.syncworld import SyncWorld
     from vf import targets
     from Pyro5 import client, errors
-    sername, maxlen, si, sn = unit
+    sername, maxlen, si, sn = unit[:4]
+    client_ser = unit[4] if len(unit) > 4 else None       # the client may speak another serializer than the daemon's configured one
     st = Stats()
     seen = set()
 
@@ -44,8 +47,8 @@ def run_config(unit):
         fp = "C11|" + fp
         if fp not in seen:
             seen.add(fp)
-            st.violations.append({"fingerprint": fp, "what": "%s [serializer=%s sequence=%s]" % (what, sername, [s[0] for s in seq]),
-                                  "replay": {"unit": [sername, maxlen, 0, 1], "sequence": [s[0] for s in seq]}})
+            st.violations.append({"fingerprint": fp, "what": "%s [serializer=%s client-serializer=%s sequence=%s]" % (what, sername, client_ser or sername, [s[0] for s in seq]),
+                                  "replay": {"unit": [sername, maxlen, 0, 1, client_ser], "sequence": [s[0] for s in seq]}})
     gc.disable()
     w = SyncWorld(SERIALIZER=sername)
     try:
@@ -54,6 +57,8 @@ def run_config(unit):
         for oid in ("s", "b", "o"):
             d.register(targets.Accum(), oid)
             proxies[oid] = client.Proxy("PYRO:%s@h:1" % oid)
+            if client_ser:
+                proxies[oid]._pyroSerializer = client_ser
             proxies[oid]._pyroBind()
         seqs = []
         for L in range(0, maxlen + 1):
@@ -166,15 +171,19 @@ def run(ctx):
     for sername in sorted(serializers.serializers):
         for i in range(n):
             units.append((sername, maxlen, i, n))
+    mixed = [("serpent", "json"), ("json", "marshal"), ("marshal", "serpent"), ("msgpack", "json")] + ([] if ctx.quick else [("json", "serpent"), ("marshal", "json"), ("serpent", "marshal"), ("json", "msgpack")])
+    for dser, cser in mixed:
+        for i in range(2 if ctx.quick else 8):
+            units.append((dser, 2 if ctx.quick else 3, i, 2 if ctx.quick else 8, cser))
     total = Stats()
     for st in ctx.pmap(run_config, units):
         total.merge(st)
     cov = coverage_from_stats(
         total,
-        rule="every call sequence of length 0..%d over an %d-letter alphabet (succeeding calls with positional/keyword arguments, three raising calls, an unexposed, a "
-             "private and a missing member, a call with bad arguments) x 4 serializers, run (a) call by call, (b) as a batch, (c) as a oneway batch on three "
+        rule="every call sequence of length 0..%d over an %d-letter alphabet (succeeding calls with positional/keyword arguments, five raising calls (two with content only some serializers can carry), an unexposed, a "
+             "private and a missing member, a call with bad arguments) x 4 serializers (plus %d daemon/client serializer mismatches, shorter sequences), run (a) call by call, (b) as a batch, (c) as a oneway batch on three "
              "identical fresh objects behind a real Proxy/Daemon pair; results prefix, failure class+args and position, execution logs and final object state "
-             "must agree; distinct = distinct (state, log length) of the sequential run" % (maxlen, len(ALPHABET)),
+             "must agree; distinct = distinct (state, log length) of the sequential run" % (maxlen, len(ALPHABET), len(mixed)),
         nontrivial=len(total.states))
     return {"violations": total.violations, "coverage": cov, "assumptions": ["faithful in-memory transport; oneway batches run synchronously in the daemon as in the real code"]}
 
